@@ -23,6 +23,7 @@ BU = "autograd/builtins.py"
 DO = "autograd/differential_operators.py"
 WU = "autograd/wrap_util.py"
 TUF = "autograd/test_util.py"
+UTI = "autograd/util.py"
 
 # (name, {property: rule expected to fire}, [(file, old, new), ...])
 MUTANTS = [
@@ -266,6 +267,10 @@ MUTANTS = [
     ("complex-probe-from-one-draw", {"C18": "A18.probe"}, [(NS, "        return np.array(np.random.randn(*self.shape)).astype(self.dtype) + 1.0j * np.array(\n            np.random.randn(*self.shape)\n        ).astype(self.dtype)", "        return np.array(self.ones() * np.random.randn(*self.shape)).astype(self.dtype)")]),
     ("complex-probe-without-imaginary-part", {"C18": "A18.probe"}, [(NS, "        return np.array(np.random.randn(*self.shape)).astype(self.dtype) + 1.0j * np.array(\n            np.random.randn(*self.shape)\n        ).astype(self.dtype)", "        return np.array(np.random.randn(*self.shape) + np.random.randn(*self.shape)).astype(self.dtype)")]),
     ("mean-where-count-on-the-unbroadcast-mask", {"C01": "A3.reduce"}, [(NV, "def grad_np_mean(ans, x, axis=None, keepdims=False):\n    shape, dtype = anp.shape(x), anp.result_type(x)\n\n    def vjp(g):\n        g_repeated, num_reps = repeat_to_match_shape(g, shape, dtype, axis, keepdims)\n        return g_repeated / num_reps", "def grad_np_mean(ans, x, axis=None, keepdims=False, where=True):\n    shape, dtype = anp.shape(x), anp.result_type(x)\n\n    def vjp(g):\n        g_repeated, num_reps = repeat_to_match_shape(g, shape, dtype, axis, keepdims)\n        if where is True:\n            return g_repeated / num_reps\n        return g_repeated * where / onp.sum(where, axis=axis, keepdims=True)")]),
+    ("toposort-work-stack-as-mutable-default", {"C20": "A11.state", "C19": "A11.state"}, [(UTI, "def toposort(end_node, parents=operator.attrgetter(\"parents\")):\n    child_counts = {}\n    stack = [end_node]", "def toposort(end_node, parents=operator.attrgetter(\"parents\"), stack=[]):\n    child_counts = {}\n    stack.append(end_node)")]),
+    ("std-zero-path-returns-the-scaled-cotangent-itself", {"C05": "A3.reduce", "C01": "A3.reduce"}, [(NV, "        if num_reps <= 1:\n            return g_repeated * 0.0", "        if num_reps <= 1:\n            if axis is None:\n                return g * 0.0\n            return (g if keepdims else anp.expand_dims(g, axis)) * 0.0")]),
+    ("matmul-adjoint-skips-zero-cotangents", {"C08": "A5.cut", "C14": "A5.cut", "C07": "A5.lin"}, [(NV, "def matmul_adjoint_0(B, G, A_meta, B_ndim):\n    if anp.ndim(G) == 0:  # A_ndim == B_ndim == 1", "def matmul_adjoint_0(B, G, A_meta, B_ndim):\n    if not anp.any(G):\n        return onp.zeros(A_meta[0], dtype=A_meta[2])\n    if anp.ndim(G) == 0:  # A_ndim == B_ndim == 1")]),
+    ("defvjp-single-rule-dispatcher-ignores-argnums", {"C17": "A13.align", "C03": "A13.align"}, [(CO, "    def vjp_argnums(argnums, ans, args, kwargs):\n        L = len(argnums)", "    if len(vjps_dict) == 1:\n        (vjpfun,) = vjps_dict.values()\n\n        def unary_vjp_argnums(argnums, ans, args, kwargs):\n            if len(argnums) != 1:\n                raise NotImplementedError(\"VJP wrt argnums {} not defined\".format(argnums))\n            vjp = vjpfun(ans, *args, **kwargs)\n            return lambda g: (vjp(g),)\n\n        defvjp_argnums(fun, unary_vjp_argnums)\n        return\n\n    def vjp_argnums(argnums, ans, args, kwargs):\n        L = len(argnums)")]),
 ]
 
 BENIGN = [
@@ -351,6 +356,8 @@ BENIGN = [
     ("mean-count-as-product-over-the-axes", [(NV, "    def vjp(g):\n        g_repeated, num_reps = repeat_to_match_shape(g, shape, dtype, axis, keepdims)\n        return g_repeated / num_reps\n\n    return vjp\n\n\ndefvjp(anp.mean, grad_np_mean)", "    num_reps = anp.size(x)\n    if axis is not None:\n        num_reps = 1\n        for ax in axis if isinstance(axis, tuple) else (axis,):\n            num_reps = num_reps * shape[ax]\n\n    def vjp(g):\n        return repeat_to_match_shape(g, shape, dtype, axis, keepdims)[0] / num_reps\n\n    return vjp\n\n\ndefvjp(anp.mean, grad_np_mean)")]),
     ("complex-probe-one-draw-with-a-leading-pair-axis", [(NS, "        return np.array(np.random.randn(*self.shape)).astype(self.dtype) + 1.0j * np.array(\n            np.random.randn(*self.shape)\n        ).astype(self.dtype)", "        re, im = np.random.randn(2, *self.shape)\n        return np.array(re).astype(self.dtype) + 1.0j * np.array(im).astype(self.dtype)")]),
     ("mean-where-count-on-the-broadcast-mask", [(NV, "def grad_np_mean(ans, x, axis=None, keepdims=False):\n    shape, dtype = anp.shape(x), anp.result_type(x)\n\n    def vjp(g):\n        g_repeated, num_reps = repeat_to_match_shape(g, shape, dtype, axis, keepdims)\n        return g_repeated / num_reps", "def grad_np_mean(ans, x, axis=None, keepdims=False, where=True):\n    shape, dtype = anp.shape(x), anp.result_type(x)\n\n    def vjp(g):\n        g_repeated, num_reps = repeat_to_match_shape(g, shape, dtype, axis, keepdims)\n        if where is True:\n            return g_repeated / num_reps\n        return g_repeated * where / onp.sum(onp.broadcast_to(where, shape), axis=axis, keepdims=True)")]),
+    ("find-top-three-way-split", [(TR, "        if isbox(arg):\n            trace = arg._trace\n            if trace > top_trace:\n                top_boxes = [(argnum, arg)]\n                top_trace = trace\n                top_node_type = type(arg._node)\n            elif trace == top_trace:\n                top_boxes.append((argnum, arg))", "        if isbox(arg):\n            trace = arg._trace\n            if trace < top_trace:\n                continue\n            if trace == top_trace:\n                top_boxes.append((argnum, arg))\n            else:\n                top_boxes = [(argnum, arg)]\n                top_trace = trace\n                top_node_type = type(arg._node)")]),
+    ("sum-jvp-options-merged-into-one-dict", [(NJ, "    return anp.sum(g, axis=axis, dtype=dtype, keepdims=keepdims, **kwargs)", "    options = dict(kwargs, axis=axis, dtype=dtype, keepdims=keepdims)\n    return anp.sum(g, **options)")]),
 ]
 
 
